@@ -967,12 +967,22 @@ func (db *DB) initDatabaseFile() error {
 	hdr, _, err := readSQLiteDatabaseHeader(f)
 	if err == io.EOF {
 		log.Printf("database file is zero length on initialization: %s", db.DatabasePath())
+		db.mode.Store(DBModeRollback) // whatever the header said before the journal was rolled back
 		return nil // no contents yet
 	} else if err != nil {
 		return fmt.Errorf("cannot read database header: %w", err)
 	}
 	db.pageSize = hdr.PageSize
 	db.pageN.Store(hdr.PageN)
+
+	// The journal mode is the one the header names now: rolling back a hot
+	// journal may have put back a page 1 with another version than the one
+	// read before recovery.
+	if hdr.WriteVersion == 2 && hdr.ReadVersion == 2 {
+		db.mode.Store(DBModeWAL)
+	} else {
+		db.mode.Store(DBModeRollback)
+	}
 
 	assert(db.pageSize > 0, "page size must be greater than zero")
 
